@@ -487,6 +487,148 @@ def jwtVerify {V : Type} (f : TokenFacts V) (now : Int) (secret : String) : Pars
       else .err          -- `none` wants a special key value, RS*/ES*/PS*/EdDSA a public key: []byte is rejected
   else .err
 
+/-! ## the limit decision of `decryptBody`, statement by statement -/
+
+/-- `io.ReadAll(io.LimitReader(r.Body, max))`: at most `max` bytes of what the body yields -/
+def limitRead (max : Int) (raw : Bytes) : Bytes := raw.take max.toNat
+
+/-- `n, _ := io.ReadFull(r.Body, make([]byte, 1)); n > 0` after `max` bytes were consumed: the body has more -/
+def probeMore (max : Int) (raw : Bytes) : Bool := !(raw.drop max.toNat).isEmpty
+
+/-- `int64(len(content)) == max`: the limit is used up -/
+def limitUsedUp (len max : Int) : Bool := decide (len = max)
+
+/-- the unknown-length branch: read up to `max`, and when the limit is used up probe for one more byte;
+`none` = `errContentLengthExceeded` -/
+def readUnknown (max : Int) (raw : Bytes) : Option Bytes :=
+  if limitUsedUp (limitRead max raw).length max && probeMore max raw then none else some (limitRead max raw)
+
+/-- the declared-length branch: `io.ReadFull(r.Body, make([]byte, r.ContentLength))`; `none` = unexpected EOF -/
+def readDeclared (cl : Int) (raw : Bytes) : Option Bytes :=
+  if (raw.length : Int) < cl then none else some (raw.take cl.toNat)
+
+/-- `max := limitBytes; if max <= 0 { max = maxBytes }` -/
+def unknownCap (limit : Int) : Int := if limit ≤ 0 then maxBytes else limit
+
+/-- `decryptBody`'s reading of the body: `none` = an error (400) -/
+def readBody (limit cl : Int) (raw : Bytes) : Option Bytes :=
+  if limit > 0 ∧ cl > limit then none
+  else if cl > 0 then readDeclared cl raw
+  else readUnknown (unknownCap limit) raw
+
+/-- `LimitCryptionHandler` written over `readBody` (proven equal to `cryptionHandler`: `cryptionHandler_eq_viaRead`) -/
+def cryptionHandlerViaRead (C : BlockCipher) (limit : Int) (key : Bytes) (cl : Int) (raw : Bytes) (inner : Inner) : Resp :=
+  if cl = 0 then flushResp C key raw (inner raw)
+  else match readBody limit cl raw with
+    | none => { ran := false, status := 400 }
+    | some content => if content.isEmpty then flushResp C key [] (inner []) else decryptAndServe C key content inner
+
+/-! ## rest/engine.go and rest/server.go: which middlewares are bound in front of a route's handler -/
+
+/-- `RestConf.Middlewares`: the eleven switches, in the order `buildChainWithNativeMiddlewares` consults them -/
+structure MwConf where
+  trace : Bool
+  log : Bool
+  prometheus : Bool
+  maxConns : Bool
+  breaker : Bool
+  shedding : Bool
+  timeout : Bool
+  recover : Bool
+  metrics : Bool
+  maxBytes : Bool
+  gunzip : Bool
+  deriving Repr, DecidableEq
+
+/-- the switch and the handler each `if ng.conf.Middlewares.X { chn = chn.Append(handler.Y…) }` appends -/
+def nativeTable (m : MwConf) : List (Bool × String) :=
+  [(m.trace, "handler.TraceHandler"), (m.log, "ng.getLogHandler"), (m.prometheus, "handler.PrometheusHandler"),
+   (m.maxConns, "handler.MaxConnsHandler"), (m.breaker, "handler.BreakerHandler"), (m.shedding, "handler.SheddingHandler"),
+   (m.timeout, "handler.TimeoutHandler"), (m.recover, "handler.RecoverHandler"), (m.metrics, "handler.MetricHandler"),
+   (m.maxBytes, "handler.MaxBytesHandler"), (m.gunzip, "handler.GunzipHandler")]
+
+/-- `buildChainWithNativeMiddlewares` -/
+def nativeChain (m : MwConf) : List String :=
+  (nativeTable m).filterMap fun e => if e.1 then some e.2 else none
+
+/-- what the route options leave in `featuredRoutes` as far as the gates are concerned -/
+structure RouteOpts where
+  jwt       : Bool := false     -- fr.jwt.enabled
+  prev      : Bool := false     -- len(fr.jwt.prevSecret) > 0
+  sig       : Bool := false     -- fr.signature.enabled
+  sigKeys   : Bool := false     -- len(fr.signature.PrivateKeys) > 0
+  sigStrict : Bool := false     -- fr.signature.Strict
+  deriving Repr, DecidableEq
+
+/-- the route options of rest/server.go that touch the gates (everything else leaves `RouteOpts` alone) -/
+inductive RouteOption where
+  | withJwt                               -- WithJwt(secret)
+  | withJwtTransition (prevEmpty : Bool)  -- WithJwtTransition(secret, prevSecret)
+  | withSignature (strict keys : Bool)    -- WithSignature(SignatureConf{Strict, PrivateKeys})
+  | other                                 -- WithPrefix / WithPriority / WithMaxBytes / WithTimeout / WithSSE
+  deriving Repr, DecidableEq
+
+/-- one option applied to the group (`opt(&r)` in `AddRoutes`). `WithJwt` does not touch `prevSecret`: one set by an
+earlier `WithJwtTransition` stays in force. -/
+def RouteOption.apply (o : RouteOpts) : RouteOption → RouteOpts
+  | .withJwt => { o with jwt := true }
+  | .withJwtTransition prevEmpty => { o with jwt := true, prev := !prevEmpty }
+  | .withSignature strict keys => { o with sig := true, sigStrict := strict, sigKeys := keys }
+  | .other => o
+
+/-- `AddRoutes(rs, opts...)` -/
+def applyOptions (opts : List RouteOption) : RouteOpts := opts.foldl RouteOption.apply {}
+
+def authorizeName : String := "handler.Authorize"
+def contentSecurityName : String := "handler.LimitContentSecurityHandler"
+
+/-- `engine.signatureVerifier`: `none` = `ErrSignatureConfig` (strict without keys), otherwise what it does to a chain -/
+def signatureVerifier (o : RouteOpts) : Option (List String → List String) :=
+  if !o.sig then some id
+  else if !o.sigKeys then (if o.sigStrict then none else some id)
+  else some (· ++ [contentSecurityName])
+
+/-- `engine.appendAuthHandler`: `Authorize` when jwt is enabled, then the verifier -/
+def appendAuthHandler (o : RouteOpts) (verifier : List String → List String) (chn : List String) : List String :=
+  verifier (if o.jwt then chn ++ [authorizeName] else chn)
+
+/-- `engine.bindRoute`: the user's chain (`WithChain`) or the native one, ALWAYS followed by the auth handlers, then the
+`Server.Use` middlewares. `none`: `bindFeaturedRoutes` returned the verifier's error, nothing of the group is bound. -/
+def bindRoute (custom : Option (List String)) (m : MwConf) (o : RouteOpts) (uses : List String) : Option (List String) :=
+  match signatureVerifier o with
+  | none => none
+  | some v => some (appendAuthHandler o v (custom.getD (nativeChain m)) ++ uses)
+
+/-- the result of serving a request through a chain of middlewares that either pass the request on (`none`) or answer
+it themselves (`some status`) -/
+structure ChainRun where
+  saw    : List String     -- the middlewares that saw the request, in order
+  ran    : Bool            -- the route's handler was called
+  status : Nat
+  deriving Repr, DecidableEq
+
+def runChain (verdict : String → Option Nat) : List String → ChainRun
+  | [] => { saw := [], ran := true, status := 200 }
+  | n :: rest =>
+    match verdict n with
+    | some st => { saw := [n], ran := false, status := st }
+    | none => let r := runChain verdict rest; { r with saw := n :: r.saw }
+
+/-- the two gates' verdicts on a request; every other middleware passes the request on -/
+def gateVerdict (auth cs : Option Nat) (n : String) : Option Nat :=
+  if n = authorizeName then auth else if n = contentSecurityName then cs else none
+
+/-- `Authorize`'s verdict from its model outcome -/
+def authVerdict {V : Type} (out : AuthOut V) : Option Nat := if out.ran then none else some out.status
+
+/-- the content-security gate's verdict. With a user `UnsignedCallback` the default `handleVerificationFailure` is NOT
+installed: a failed verification ends the request with whatever the callback wrote (200 when it wrote nothing), strict
+or not. -/
+def csGateVerdict (strict userCallback gatedMethod covered : Bool) : Option Nat :=
+  if !gatedMethod || covered then none
+  else if userCallback then some 200
+  else if strict then some 403 else none
+
 /-! ## RSA chunking (core/codec/rsa.go `rsaBase.crypt`) -/
 
 def mapChunks (f : Bytes → Option Bytes) : List Bytes → Option Bytes
